@@ -202,13 +202,23 @@ def corrupt(case):
             mcv = "XYZ#$@"[c % 6] + "Ab"
         else:
             m = evs[pos - 1][0][0]
-            if c % 6 < 4:
-                mcv = m + "\x7f!~Z"[c % 4] + "qZ9_"[b % 4]
+            if c % 4 < 2:
+                mcv = m + "\x7f!~Z"[(c // 4) % 4] + "qZ9_"[b % 4]
             else:
                 # a code that differs from a handled one (the previous event's) only in the top
-                # bit of its category or value byte
+                # bit of its category or value byte; preferably after an event of a model other
+                # than ovni (every model has its own handler table)
                 prev = evs[pos - 1][0]
-                mcv = prev[0] + (chr(ord(prev[1]) | 0x80) + prev[2] if c % 6 == 4 else prev[1] + chr(ord(prev[2]) | 0x80))
+                used = {e[0] for e in evs}
+                ms = sorted(R.NAME2CHAR[n] for n in s["require"] if n in R.NAME2CHAR and R.NAME2CHAR[n] != "O")
+                fresh = [pr for m_ in ms for pr in R.region_pairs(m_) if pr["enter"] not in used and pr["leave"] not in used]
+                if fresh and evs[0][0] == "OHx":
+                    # ... of a region of a required model that this thread never enters: were the code taken
+                    # for the handled one, entering that region right after OHx would be legal
+                    prev = fresh[b % len(fresh)]["enter"]
+                    pos = 1
+                    clk = evs[0][1]
+                mcv = prev[0] + (chr(ord(prev[1]) | 0x80) + prev[2] if c % 4 == 2 else prev[1] + chr(ord(prev[2]) | 0x80))
             if mcv in R.regions() or mcv in R.IGNORED or mcv[:2] in ("OB", "OU"):
                 return None     # (bursts and unordered-region markers: the value byte is ignored)
         evs.insert(pos, T.ev(mcv, clk))
